@@ -1,10 +1,11 @@
-\* implementation-shaped model of the tree AS BUILT: the classes with a bad outcome are exactly the known-defect classes
+\* implementation-shaped model of the tree WITHOUT the repairs F14a-d: the classes with a bad outcome are exactly the known-defect classes
 SPECIFICATION ImplSpec
 CONSTANTS
   N = 2
   FixA = FALSE
   FixB = FALSE
   FixC = FALSE
+  FixD = FALSE
 VIEW MCView
 INVARIANT TypeOK AsBuiltDefectsAreExactlyKnown
 PROPERTY PiecesOnlyGrow GrowOnlyByGoodPayload
